@@ -13,6 +13,7 @@ import (
 	"fmt"
 	"os"
 	"path/filepath"
+	"reflect"
 	"sort"
 	"strings"
 	"testing"
@@ -37,6 +38,80 @@ func c02Print(n ast.Node, compact, allParens bool) string {
 
 // structure: fully parenthesised compact print (comments are omitted by compact mode)
 func c02Structure(n ast.Node) string { return c02Print(n, true, true) }
+
+// c02Shape: the tree written out by reflection (node type, token, children in field order; comments left out):
+// a comparison that does not go through the printer under test.
+func c02Shape(n ast.Node) string {
+	var sb strings.Builder
+	c02ShapeInto(&sb, reflect.ValueOf(n))
+	return sb.String()
+}
+
+var c02NodeType = reflect.TypeOf((*ast.Node)(nil)).Elem()
+
+func c02ShapeInto(sb *strings.Builder, v reflect.Value) {
+	for v.Kind() == reflect.Interface || v.Kind() == reflect.Pointer {
+		if v.IsNil() {
+			// an open slice end a[1:] is printed a[1:nil] (the printer's notation, same meaning): both read as nil
+			sb.WriteString("Identifier<nil>()")
+			return
+		}
+		v = v.Elem()
+	}
+	if v.Kind() != reflect.Struct {
+		return
+	}
+	t := v.Type()
+	if t.Name() == "Comment" {
+		return
+	}
+	sb.WriteString(t.Name())
+	if b := v.FieldByName("Base"); b.IsValid() {
+		if tok := b.FieldByName("Token"); tok.IsValid() && !tok.IsNil() {
+			if lit := tok.MethodByName("Literal"); lit.IsValid() {
+				fmt.Fprintf(sb, "<%s>", lit.Call(nil)[0].String())
+			}
+		}
+	}
+	sb.WriteString("(")
+	for i := 0; i < t.NumField(); i++ {
+		f, ft := v.Field(i), t.Field(i)
+		if ft.Name == "Base" || !ft.IsExported() {
+			continue
+		}
+		switch {
+		case ft.Name == "Pairs" && f.Kind() == reflect.Map:
+			order := v.FieldByName("Order")
+			for j := 0; j < order.Len(); j++ {
+				k := order.Index(j)
+				c02ShapeInto(sb, k)
+				sb.WriteString(":")
+				c02ShapeInto(sb, f.MapIndex(k))
+				sb.WriteString(",")
+			}
+		case ft.Name == "Order":
+		case f.Kind() == reflect.Bool:
+			if f.Bool() && ft.Name != "SameLineAsPrevious" && ft.Name != "SameLineAsNext" {
+				sb.WriteString(ft.Name + ",")
+			}
+		case f.Kind() == reflect.Slice && f.Type().Elem().Implements(c02NodeType):
+			sb.WriteString("[")
+			for j := 0; j < f.Len(); j++ {
+				before := sb.Len()
+				c02ShapeInto(sb, f.Index(j))
+				if sb.Len() > before {
+					sb.WriteString(",")
+				}
+			}
+			sb.WriteString("]")
+		case f.Type().Implements(c02NodeType) || (f.Kind() == reflect.Pointer && f.Type().Implements(c02NodeType)):
+			sb.WriteString(ft.Name + "=")
+			c02ShapeInto(sb, f)
+			sb.WriteString(",")
+		}
+	}
+	sb.WriteString(")")
+}
 
 func c02Corpus() map[string]string {
 	out := map[string]string{}
@@ -135,6 +210,7 @@ func TestVerifBoundedRoundTrip(t *testing.T) {
 		}
 		accepted++
 		want := c02Structure(prog)
+		wantShape := c02Shape(prog)
 		for _, compact := range []bool{false, true} {
 			evals++
 			mode := "normal"
@@ -145,6 +221,11 @@ func TestVerifBoundedRoundTrip(t *testing.T) {
 			prog2, errs2 := c02Parse(text)
 			if len(errs2) > 0 {
 				fail("", fmt.Sprintf("%s: %s-mode output is rejected by the parser: %v; source %q, output %q", name, mode, errs2, c02cut(src), c02cut(text)))
+				continue
+			}
+			if gotShape := c02Shape(prog2); gotShape != wantShape && c02Structure(prog2) == want {
+				// same fully parenthesised print but different trees: the printer hides a difference
+				fail("", fmt.Sprintf("%s: %s-mode output parses to a different tree (compared by reflection): source %q prints as %q; tree %q became %q", name, mode, c02cut(src), c02cut(text), c02cut(wantShape), c02cut(gotShape)))
 				continue
 			}
 			if got := c02Structure(prog2); got != want {
@@ -165,7 +246,7 @@ func TestVerifBoundedRoundTrip(t *testing.T) {
 		fmt.Printf("BOUNDED-KNOWN %s %s\n", id, known[id])
 	}
 	fmt.Printf("BOUNDED evaluations=%d distinct=%d exhaustive=false bound=%q\n", evals, accepted,
-		fmt.Sprintf("%d source texts (%d accepted by the parser): examples/*.gr, tests/*.gr, every ordered pair of the 18 binary operators in three nestings, every prefix/binary combination, 18 operand forms (if/for/lambda/function/call/index/literal/parenthesised) on both sides of 11 operators and in index/call/prefix/condition positions, 35 statement shapes; normal and compact mode; structure compared by fully parenthesised compact print", len(corpus), accepted))
+		fmt.Sprintf("%d source texts (%d accepted by the parser): examples/*.gr, tests/*.gr, every ordered pair of the 18 binary operators in three nestings, every prefix/binary combination, 18 operand forms (if/for/lambda/function/call/index/literal/parenthesised) on both sides of 11 operators and in index/call/prefix/condition positions, 35 statement shapes; normal and compact mode; structure compared by fully parenthesised compact print and by a reflection dump of the tree that does not use the printer", len(corpus), accepted))
 	if fails > 0 {
 		t.Fatalf("%d failures", fails)
 	}
